@@ -222,3 +222,15 @@ class AxisSliceAllLengths(Contract):
                 rec.update(ok=False, undecided=True, detail=ob.reason)
             out.append(rec)
         return out
+
+
+def _with_selftest(fn):
+    def wrapped(self, tier):
+        from contracts.unbounded import engine_selftest
+
+        return fn(self, tier) + engine_selftest()
+
+    return wrapped
+
+
+AxisSliceAllLengths.static_obligations = _with_selftest(AxisSliceAllLengths.static_obligations)
